@@ -31,14 +31,22 @@ fn main() {
             let prefix = &args[6];
             let mut ops = String::new();
             let mut events = String::new();
+            let mut wobs = String::new();
             for h in 0..n {
                 let hseed = seed.wrapping_mul(1_000_003).wrapping_add(h);
                 let mut g = gen::WorldGen::new(hseed, backend, h);
                 events.push_str(&format!("== history {} seed {}\n", h, hseed));
+                wobs.push_str(&format!("== history {} seed {}\n", h, hseed));
                 if g.start() {
+                    g.snapshot(&mut wobs);
+                    if h == 0 && seed % 1000 == 0 && args[1] == "world" {
+                        g.scripted_sweep();
+                        g.snapshot(&mut wobs);
+                    }
                     let k = len / 2 + g.r.below(len / 2 + 1);
                     for i in 0..k {
                         g.step();
+                        g.snapshot(&mut wobs);
                         if i % 10 == 9 {
                             g.queries();
                         }
@@ -62,6 +70,7 @@ fn main() {
             }
             fs::write(format!("{prefix}.ops"), &ops).expect("write ops");
             fs::write(format!("{prefix}.events"), &events).expect("write events");
+            fs::write(format!("{prefix}.world"), &wobs).expect("write world obs");
             let out = run::run_file(&ops);
             fs::write(format!("{prefix}.impl"), out).expect("write obs");
         }
